@@ -22,3 +22,50 @@ CHECKS["C19"] = {
         {"pkg": "mboxprop", "run": "FuzzC19MsgData", "kind": "fuzz", "fuzztime": (0, 60), "tiers": ("thorough",), "parallel": 8},
     ],
 }
+
+CHECKS["C01"] = {
+    "level": "exploration",
+    "rule": ("rapid-generated scenarios run in virtual time (testing/synctest): window N in 1..254, bidirectional or unidirectional traffic sized to wrap the sequence space "
+             "(chunked large messages wrap s=255), static/adaptive timeouts, keepalive on/off, latency below the resend timeout, an independent per-packet "
+             "drop/dup(1-3)/delay script per direction (delays include values equal to the resend timeout), applied after or (1 in 6) during the handshake. "
+             "Oracle: on each direction the Recv results are a byte-exact prefix of the messages offered before the first failed Send. "
+             "Non-trivial: at least one fault hit a DATA/ACK/NACK packet and a retransmission was observed; distinct by scenario JSON."),
+    "assumptions": ["transport model: FIFO per direction with drop/adjacent-duplicate/delay (vnet.Link)", "goroutine schedules are sampled, not enumerated"],
+    "units": [
+        {"pkg": "gbnprop", "run": "TestC01Delivery", "checks": (6000, 60000), "shards": (1, 16), "timeout": (900, 5400),
+         "gomaxprocs": [16, 1, 2, 4]},
+    ],
+}
+
+CHECKS["C09"] = {
+    "level": "fault_enumeration",
+    "rule": ("(1) enumeration through the verif hook: every sequence space s in 2..10 (and a 7x7 base/size grid for s=255) x every reachable (base,size<=n) built by addPacket/processACK "
+             "x all 256 ACK values and all 256 NACK values; post-state checked against an unbounded-integer reference (base,top < s; size <= n; top unchanged; base moves only within "
+             "[old base, old top]; values of the sequence space outside the window change nothing; ACK(base) frees a slot; window slots populated); containsSequence vs cyclic membership for all triples. "
+             "(2) rapid random (s,base,size,op,value). (3) virtual-time scenarios with a wire monitor: first transmissions minus everything the ACK/NACKs already handed to the sender could acknowledge must be <= N, "
+             "and both ends must report n=N, s=N+1. (4) blocking: N+k back-to-back Sends with ACK latency D: the first N return with zero virtual elapsed time, the next not before one RTT and by one RTT (+1ms) per window. "
+             "Non-trivial: enumerated triples whose value is in the window, equals top, or is >= s; dynamic cases in which the window filled; every blocking case."),
+    "exhaustive_scope": "all (base,size,value) triples for s in 2..10 and the s=255 grid, both ACK and NACK; all containsSequence triples for s in 2..10",
+    "assumptions": ["queue states are constructed by the same calls the connection makes", "the wire monitor reads ACK/NACK as generously cumulative as any correct sender could"],
+    "units": [
+        {"pkg": "gbnprop", "run": "TestC09EnumQueue", "kind": "plain"},
+        {"pkg": "gbnprop", "run": "TestC09RapidQueue", "checks": (20000, 400000), "shards": (1, 4)},
+        {"pkg": "gbnprop", "run": "TestC09Dynamic", "checks": (2500, 30000), "shards": (1, 8), "timeout": (900, 5400), "gomaxprocs": [16, 1, 2, 4]},
+        {"pkg": "gbnprop", "run": "TestC09Blocking", "checks": (1500, 20000), "shards": (1, 4), "timeout": (900, 5400)},
+    ],
+}
+
+CHECKS["C14"] = {
+    "level": "fault_enumeration",
+    "rule": ("(1) exhaustive: maxChunk in 0..16 x all lengths 0..48 as consecutive messages of one connection + all ordered pairs of {0,1,c-1,c,c+1,2c,2c+1}, both roles, virtual time. "
+             "(2) rapid: sequences of up to 50 messages (lengths up to 300 KiB, chunk up to 64 KiB), with drop/dup/delay scripts, with send deadlines and receive deadlines drawn around "
+             "multiples of the RTT so that they expire before/inside/after multi-chunk messages; a timed-out call is retried. Oracle: Recv results are a byte-exact prefix of the offered messages, "
+             "equal to the list of successful Sends when the run completes, and no DATA payload exceeds maxChunk. Non-trivial: a zero-length message, a length within +-1 of a multiple of the chunk size, "
+             "or a deadline that fired inside a message."),
+    "exhaustive_scope": "maxChunk 0..16 x lengths 0..48 and boundary-length pairs",
+    "assumptions": ["one sender and one receiver goroutine per direction"],
+    "units": [
+        {"pkg": "gbnprop", "run": "TestC14Enum", "kind": "plain"},
+        {"pkg": "gbnprop", "run": "TestC14Rapid", "checks": (4000, 40000), "shards": (1, 8), "timeout": (900, 5400), "gomaxprocs": [16, 1, 2, 4]},
+    ],
+}
